@@ -5,6 +5,13 @@
 //!     (`MakeInstruction::instruction` with the `…ClientAccounts` struct) and answers
 //!     `ok <program> <data> <metas>` as the framework produced them; the property oracle builds the same
 //!     instruction through the reference crate and compares program id, data and metas.
+//!   * `cpi <exact|more|all|none> <prog>.<Variant> …`  builds the same instruction through the CPI path
+//!     (`Program::cpi(..).invoke()`), captured by the `verif_hooks` CPI handler, with native infos whose runtime
+//!     signer/writable flags are exactly the required ones / strictly more / all / none; oracle: CPI build =
+//!     client build = reference builder.
+//!   * `table <id|ix|struct|pod|state|authority> …`  one entry of the generated tables as the COMPILED code has it
+//!     (program ids, `DISCRIMINANT` bytes, borsh layout probe, meta layout probe, `offset_of!`/`size_of` of the
+//!     packed structs, `PodOption` layout and tags, enum encodings); the model answers from the generated table.
 //!   * `mint|token <owner> <image>`  puts the image into a native `AccountInfo`, runs the framework's
 //!     view (`validate_accounts` + `data()`), answers accept/reject + fields; oracle = `Pack::unpack`.
 //!   * `vmint|vtoken <owner> <image> <args>`  runs the `validate_mint` / `validate_token` validation ids
@@ -15,6 +22,7 @@
 //!     `find_program_address`; oracle = the reference derivation.
 mod gen;
 mod ixs;
+mod tables;
 mod views;
 
 use hx_common::{Args, Recorder};
@@ -38,6 +46,8 @@ pub fn exec_line(line: &str) -> Exec {
     let toks: Vec<&str> = line.split(' ').filter(|t| !t.is_empty()).collect();
     let r = hx_common::catch(|| match toks.as_slice() {
         ["ix", rest @ ..] => ixs::exec_ix(rest),
+        ["cpi", rest @ ..] => ixs::exec_cpi(rest),
+        ["table", rest @ ..] => tables::exec_table(rest),
         ["mint", owner, image] => views::exec_mint(owner, image),
         ["token", owner, image] => views::exec_token(owner, image),
         ["vmint", owner, image, d, au, fr] => views::exec_vmint(owner, image, d, au, fr),
@@ -76,6 +86,14 @@ fn run_case(rec: &mut Recorder, lines: &[String]) {
 }
 
 fn main() {
+    // `hx-bindings --dump-tables`: every table entry as the COMPILED code has it (one `op -> answer` per line)
+    if std::env::args().nth(1).as_deref() == Some("--dump-tables") {
+        hx_common::quiet_panics();
+        for op in tables::table_ops() {
+            println!("{op} -> {}", exec_line(&op).answer);
+        }
+        return;
+    }
     let args = Args::parse();
     if args.prop != "C16" {
         eprintln!("hx-bindings: unknown property {}", args.prop);
@@ -84,7 +102,7 @@ fn main() {
     hx_common::quiet_panics();
     let mut rec = Recorder::new(
         "ix: the reference builder produced an instruction and it was compared with the framework's \
-         (program id, data, every meta); image: the image carries a `Some` option or takes a reject \
+         (program id, data, every meta); cpi: the CPI build was captured and compared with the client build; image: the image carries a `Some` option or takes a reject \
          branch in the reference or the framework; validation: the reference accepts the image and the predicate was compared; ata: the PDA preimage of the framework's address was identified",
     );
     let cases: Vec<Vec<String>> = match args.replay_cases() {
